@@ -275,8 +275,19 @@ func ext4ManyInodesScenario(oracle string, depth int) *fatScen {
 	return &fatScen{Name: "manyinodes", Cfg: cfg, Prefix: pre, Letters: l, Depth: depth, Oracle: oracle}
 }
 
+// ext4GroupSpanSmallScenario: the same geometry with metadata_csum; one write of 600 blocks is served from three block groups
+// at once (the allocator's slow path) and still fits the four extents of the inode, so that no extent block is involved
+func ext4GroupSpanSmallScenario(oracle string, depth int) *fatScen {
+	W := func(p, off, ln string) fsOp { return fsOp{Kind: "write", Path: p, Off: off, Len: ln} }
+	cfg := fatCfg{Type: 4, Size: 2 << 20, Start: 4096, E4SectorsPerBlock: 2, E4Feat: "bpg=256"}
+	pre := []fsOp{W("span3.bin", "0", "600c")}
+	l := []fsOp{{Kind: "reopen"}, W("x.bin", "0", "c+1"), W("second.bin", "0", "400c"), {Kind: "mkdir", Path: "d"}, {Kind: "remove", Path: "span3.bin"}}
+	return &fatScen{Name: "groupspan3", Cfg: cfg, Prefix: pre, Letters: l, Depth: depth, Oracle: oracle}
+}
+
 func ext4AllScens(oracle string, quick bool, depth int) []*fatScen {
 	var out []*fatScen
+	out = append(out, ext4GroupSpanSmallScenario(oracle, 2))
 	if oracle == "e2fsck" && quick {
 		// (every transition costs an e2fsck and a debugfs run)
 		out = append(out, ext4GroupSpanScenario(oracle, 2), ext4ManyInodesScenario(oracle, 3))
